@@ -6,7 +6,8 @@
 
   Like `Kernel/Model.lean` this is the third party of the comparison VirtualSystem / real kernel / pivot,
   not a transcription of `yash-env/src/system/virtual/process.rs`.  Scope: the standard signals HUP INT
-  USR1 USR2 TERM (default action: terminate) and CHLD URG (default action: ignore); no stop/continue
+  QUIT USR1 USR2 PIPE ALRM TERM (default action: terminate), CHLD URG WINCH (default action: ignore) and
+  KILL (sent only); no stop/continue
   signals, no real-time signals, no core dumps; one level of fork (a child does not fork).
   Where POSIX leaves a choice the pivot does what Linux does and says so.
 
@@ -14,21 +15,22 @@
 -/
 namespace YashModel.Kernel.Signal
 
-/-- in increasing Linux signal number (1 2 10 12 15 17 23): the order in which Linux delivers several
-    pending signals that become unblocked at once -/
+/-- in increasing Linux signal number (1 2 3 9 10 12 13 14 15 17 23 28): the order in which Linux delivers
+    several pending signals that become unblocked at once -/
 inductive Sig where
-  | HUP | INT | USR1 | USR2 | TERM | CHLD | URG
+  | HUP | INT | QUIT | KILL | USR1 | USR2 | PIPE | ALRM | TERM | CHLD | URG | WINCH
   deriving DecidableEq, Repr, Inhabited
 
-def Sig.all : List Sig := [.HUP, .INT, .USR1, .USR2, .TERM, .CHLD, .URG]
+def Sig.all : List Sig :=
+  [.HUP, .INT, .QUIT, .KILL, .USR1, .USR2, .PIPE, .ALRM, .TERM, .CHLD, .URG, .WINCH]
 
 def Sig.name : Sig → String
-  | .HUP => "HUP" | .INT => "INT" | .USR1 => "USR1" | .USR2 => "USR2" | .TERM => "TERM"
-  | .CHLD => "CHLD" | .URG => "URG"
+  | .HUP => "HUP" | .INT => "INT" | .QUIT => "QUIT" | .KILL => "KILL" | .USR1 => "USR1" | .USR2 => "USR2"
+  | .PIPE => "PIPE" | .ALRM => "ALRM" | .TERM => "TERM" | .CHLD => "CHLD" | .URG => "URG" | .WINCH => "WINCH"
 
 /-- signals whose default action is to ignore the signal -/
 def defaultIgnored : Sig → Bool
-  | .CHLD => true | .URG => true | _ => false
+  | .CHLD => true | .URG => true | .WINCH => true | _ => false
 
 inductive Disp where
   | dfl | ign | catch
@@ -76,9 +78,11 @@ def deliver (p : Proc) (s : Sig) : Proc :=
   | .dfl => if defaultIgnored s then p else { p with status := .signaled s }
 
 /-- a signal is generated for the process (`kill`, `raise`, SIGCHLD from a terminating child).
-    A blocked signal stays pending — on Linux also when its disposition is to ignore it. -/
+    A blocked signal stays pending — on Linux also when its disposition is to ignore it.  SIGKILL can be
+    neither blocked, caught nor ignored: it terminates the process at once. -/
 def generate (p : Proc) (s : Sig) : Proc :=
   if !p.alive then p
+  else if s = .KILL then { p with status := .signaled .KILL }
   else if p.mask s then { p with pending := p.pending.insert s }
   else deliver p s
 
